@@ -11,6 +11,8 @@
  *   Q <n>        force state->state = n
  *   V <name> <int>     force a scalar output
  *   B <name> <len> <hex>   force a string/raw output: buffer bytes (hex, up to its size) and counter
+ *   A            sweep: from the current context feed each single byte 0..255 (and end-of-input), restoring the
+ *                context in between; prints the distinct outcomes and a 257-entry index vector
  *   T <text>     echo a trace separator line  {"ev":"trace","id":"<text>"}
  * stdout: one JSON object per API call:
  *   {"ev":"feed","rc":0,"adv":3,"q":5,"out":{...},"hooks":[{"n":"h","iv":97,"out":{...}},...]}
@@ -71,6 +73,59 @@ static void log_hook(const char *name, PSTATE *st, uint8_t inval) {
 }
 
 GLUE_HOOK_DEFS
+
+/* ---- exhaustive single-step sweep: every byte (and end-of-input) from one saved context ---- */
+static char obuf[257][1 << 16];
+static int nouts;
+static int oidx[257];
+
+static int outcome_index(int rc, long adv) {
+    static char cur[1 << 16];
+    FILE *f = fmemopen(cur, sizeof cur, "w");
+    fprintf(f, "{\"rc\":%d,\"adv\":%ld,\"q\":%ld,\"out\":{", rc, adv, (long)g_state->state);
+    glue_dump_outs(g_state, f);
+    fprintf(f, "},\"hooks\":[%.*s]}", (int)hooklen, hookbuf);
+    fclose(f);
+    hooklen = 0; nhooks = 0;
+    for (int i = 0; i < nouts; i++) if (!strcmp(obuf[i], cur)) return i;
+    strcpy(obuf[nouts], cur);
+    return nouts++;
+}
+
+static void sweep(void) {
+    nouts = 0;
+    glue_save(g_state);
+    printf("{\"ev\":\"steps\",\"q\":%ld,\"out\":{", (long)g_state->state);
+    glue_dump_outs(g_state, stdout);
+    printf("},");
+    for (int b = 0; b < 256; b++) {
+        glue_restore(g_state);
+        uint8_t *buf = (uint8_t *)(malloc)(1);
+        buf[0] = (uint8_t)b;
+#if GLUE_INDIRECT
+        const uint8_t *cur = buf;
+        int rc = (int)PFX(feed)(&cur, buf + 1, g_state);
+        oidx[b] = outcome_index(rc, (long)(cur - buf));
+#else
+        int rc = (int)PFX(feed)(buf, buf + 1, g_state);
+        oidx[b] = outcome_index(rc, -1);
+#endif
+        (free)(buf);
+    }
+#if GLUE_HAS_END
+    glue_restore(g_state);
+    { int rc = (int)PFX(end)(g_state); oidx[256] = outcome_index(rc, 0); }
+#else
+    oidx[256] = -1;
+#endif
+    glue_restore(g_state);
+    printf("\"outs\":[");
+    for (int i = 0; i < nouts; i++) printf("%s%s", i ? "," : "", obuf[i]);
+    printf("],\"idx\":[");
+    for (int i = 0; i < 257; i++) printf("%s%d", i ? "," : "", oidx[i]);
+    printf("]}\n");
+    fflush(stdout);
+}
 
 static void emit(const char *ev, int rc, long adv) {
     printf("{\"ev\":\"%s\",\"rc\":%d,\"adv\":%ld,\"q\":%ld,\"out\":{", ev, rc, adv, (long)g_state->state);
@@ -141,6 +196,8 @@ int main(void) {
             glue_dump_outs(g_state, stdout);
             printf("}}\n");
             fflush(stdout);
+        } else if (cmd == 'A') {
+            sweep();
         } else if (cmd == 'Q') {
             g_state->state = (__typeof__(g_state->state))atol(arg);
         } else if (cmd == 'V') {
